@@ -26,6 +26,8 @@ func c18(c *Ctx) {
 	c18R5(c)
 	c18R6(c)
 	ruleFixedNamePod(c, "C18.R6")
+	rulePodUseENI(c, "C18.R7")
+	ruleRangeCopyStore(c, "C18.R8", c.P.AllFuncs(), "the whole module (the webhook normalises entries of the network list in place)")
 }
 
 // alwaysReachesFrom: every non-pruned path that starts right after a node
